@@ -9,6 +9,7 @@ import (
 	"bytes"
 	"context"
 	"crypto/tls"
+	"crypto/x509"
 	"fmt"
 	"io"
 	stdlog "log"
@@ -25,6 +26,7 @@ import (
 	"github.com/tendermint/tendermint/libs/log"
 
 	"github.com/ovrclk/akash/provider/gateway/rest"
+	ctypes "github.com/ovrclk/akash/x/cert/types"
 )
 
 type chainEntry string
@@ -53,10 +55,16 @@ type scenario struct {
 	BgOwn   bool         `json:"bg_same_owner_other_serial_valid"`
 	Present presentation `json:"presentation"`
 	Serial  string       `json:"serial"` // decimal; "" = 4242
+	// Answer: what the query client answers instead of the real querier's answer (answers.go); "" = real
+	Answer answerMode `json:"chain_answer,omitempty"`
 }
 
 func (s scenario) String() string {
-	return fmt.Sprintf("%s/t%d/%s/bg(%v,%v)/%s/serial=%s", s.Kind, s.Tenant, s.Chain, s.BgOther, s.BgOwn, s.Present, s.serial())
+	d := fmt.Sprintf("%s/t%d/%s/bg(%v,%v)/%s/serial=%s", s.Kind, s.Tenant, s.Chain, s.BgOther, s.BgOwn, s.Present, s.serial())
+	if s.Answer != ansReal {
+		d += "/query-client-answers:" + string(s.Answer)
+	}
+	return d
 }
 
 type castT struct {
@@ -273,20 +281,22 @@ type outcome struct {
 }
 
 type scenarioResult struct {
-	Scenario     scenario  `json:"scenario"`
-	PresentedCN  string    `json:"presented_cn"` // the account that published / would have to publish the certificate
-	ParsedCN     string    `json:"presented_subject_common_name_as_parsed,omitempty"`
-	ChainRefused string    `json:"chain_refused_registration,omitempty"`
-	Sound        bool      `json:"oracle_sound"`
-	Strict       bool      `json:"oracle_must_accept"`
-	PresentedPEM string    `json:"presented_pem,omitempty"`
-	OnChainPEM   string    `json:"onchain_pem,omitempty"`
-	ChainLog     []string  `json:"chain_msgs"`
-	DirectErr    string    `json:"verify_peer_certificate_error"`
-	DirectOK     bool      `json:"verify_peer_certificate_accepts"`
-	Outcomes     []outcome `json:"outcomes"`
-	ChainQueries int       `json:"chain_queries"`
-	Routes       []string  `json:"-"`
+	Scenario        scenario  `json:"scenario"`
+	PresentedCN     string    `json:"presented_cn"` // the account that published / would have to publish the certificate
+	ParsedCN        string    `json:"presented_subject_common_name_as_parsed,omitempty"`
+	ChainRefused    string    `json:"chain_refused_registration,omitempty"`
+	DeviatedAnswers int       `json:"deviating_query_answers,omitempty"`
+	AfterDeviation  []outcome `json:"request_after_the_deviation,omitempty"`
+	Sound           bool      `json:"oracle_sound"`
+	Strict          bool      `json:"oracle_must_accept"`
+	PresentedPEM    string    `json:"presented_pem,omitempty"`
+	OnChainPEM      string    `json:"onchain_pem,omitempty"`
+	ChainLog        []string  `json:"chain_msgs"`
+	DirectErr       string    `json:"verify_peer_certificate_error"`
+	DirectOK        bool      `json:"verify_peer_certificate_accepts"`
+	Outcomes        []outcome `json:"outcomes"`
+	ChainQueries    int       `json:"chain_queries"`
+	Routes          []string  `json:"-"`
 }
 
 type machErr struct{ msg string }
@@ -361,8 +371,16 @@ func runScenario(sc scenario, tier string, only *request) (*scenarioResult, erro
 		}
 	}
 	res.ChainLog = ch.log
-	res.Sound = sc.sound() && res.ChainRefused == ""
-	res.Strict = sc.strict() && res.ChainRefused == ""
+	res.Sound = sc.sound() && res.ChainRefused == "" && sc.Answer == ansReal
+	res.Strict = sc.strict() && res.ChainRefused == "" && sc.Answer == ansReal
+	var cquery ctypes.QueryClient = ch
+	var ans *answerClient
+	if sc.Answer != ansReal && presented != nil {
+		twin := makeCert(specFor(kProper, tenant, other, sc.serial(), now)) // same owner and serial, other key
+		ans = &answerClient{inner: ch, mode: sc.Answer, presentedPEM: presented.PEM, presentedPub: presented.PubPEM,
+			otherPEM: twin.PEM, otherPub: twin.PubPEM, strangerPEM: otherGenuine.PEM, strangerPub: otherGenuine.PubPEM, serial: sc.serial().String()}
+		cquery = ans
+	}
 
 	// the gateway, built by the real constructor
 	rec := &recorder{}
@@ -372,7 +390,7 @@ func runScenario(sc scenario, tier string, only *request) (*scenarioResult, erro
 	}
 	serverCert := makeCert(certSpec{CN: cast.Provider, Serial: big.NewInt(1), NotBefore: now.Add(-year), NotAfter: now.Add(year),
 		Usage: nil, DNS: []string{"localhost"}})
-	srv, err := rest.NewServer(context.Background(), log.NewNopLogger(), &fakeProvider{rec}, ch, "127.0.0.1:0", pid, []tls.Certificate{serverCert.tlsCert()})
+	srv, err := rest.NewServer(context.Background(), log.NewNopLogger(), &fakeProvider{rec}, cquery, "127.0.0.1:0", pid, []tls.Certificate{serverCert.tlsCert()})
 	if err != nil {
 		return nil, machErr{"rest.NewServer: " + err.Error()}
 	}
@@ -396,7 +414,7 @@ func runScenario(sc scenario, tier string, only *request) (*scenarioResult, erro
 		if srv.TLSConfig.VerifyPeerCertificate == nil {
 			return nil, machErr{"server TLS config has no VerifyPeerCertificate"}
 		}
-		verr := srv.TLSConfig.VerifyPeerCertificate(raw, nil)
+		verr := callVerify(srv.TLSConfig.VerifyPeerCertificate, raw)
 		res.DirectOK = verr == nil
 		if verr != nil {
 			res.DirectErr = verr.Error()
@@ -430,6 +448,16 @@ func runScenario(sc scenario, tier string, only *request) (*scenarioResult, erro
 		return nil, err
 	}
 	res.Outcomes = ocs
+	if ans != nil {
+		res.DeviatedAnswers = ans.deviated
+		// the deviation is over: the server must still serve the genuine holder
+		ans.set(ansReal)
+		after, err := drive(sc.String()+" (after the deviation)", ts.URL, ccfg, rec, []request{{Route: "GET /lease/{dseq}/{gseq}/{oseq}/status", DSeq: ownDSeq, GSeq: "1", OSeq: "1"}})
+		if err != nil {
+			return nil, err
+		}
+		res.AfterDeviation = after
+	}
 	res.ChainQueries = ch.queries
 	return res, nil
 }
@@ -514,6 +542,17 @@ type violation struct {
 	Request *request `json:"request,omitempty"`
 }
 
+// callVerify calls the verification callback; a panic (e.g. on a nil query response) is turned into an
+// error: in a server the handshake goroutine is recovered by net/http and the connection fails.
+func callVerify(f func([][]byte, [][]*x509.Certificate) error, raw [][]byte) (err error) {
+	defer func() {
+		if r := recover(); r != nil {
+			err = fmt.Errorf("panic: %v", r)
+		}
+	}()
+	return f(raw, nil)
+}
+
 func sigRoute(r string) string { return strings.ReplaceAll(r, " ", "") }
 
 // verdictInput is one presentation (a certificate shown to one server instance, plus the requests made
@@ -590,6 +629,33 @@ func judge(res *scenarioResult) []violation {
 	reason := sc.rejectReason()
 	if res.ChainRefused != "" {
 		reason = "not-on-chain"
+	}
+	if sc.Answer != ansReal {
+		// judged like every other presentation, with "the query client deviated" as the reason to refuse
+		vs := judgeStep(verdictInput{
+			Label: sc.String(), Prefix: "chain-answer:", Present: sc.Present != prNone, Sound: false, Strict: false,
+			SigKind: sc.sigKind(), Reason: string(sc.Answer), Publisher: res.PresentedCN,
+			DirectOK: res.DirectOK, DirectErr: res.DirectErr, Outcomes: res.Outcomes,
+		})
+		if sc.strict() && res.ChainRefused == "" {
+			reached := false
+			for _, oc := range res.AfterDeviation {
+				for _, c := range oc.Calls {
+					if c.Scoped && c.Owner == res.PresentedCN {
+						reached = true
+					}
+				}
+			}
+			if !reached {
+				st, e := 0, ""
+				if len(res.AfterDeviation) > 0 {
+					st, e = res.AfterDeviation[0].Status, res.AfterDeviation[0].Err
+				}
+				vs = append(vs, violation{Sig: "chain-answer:server-does-not-recover:" + string(sc.Answer),
+					Detail: fmt.Sprintf("%s: after the deviating answers the genuine holder is no longer served (status %d, error %q)", sc, st, e)})
+			}
+		}
+		return vs
 	}
 	return judgeStep(verdictInput{
 		Label: sc.String(), Present: sc.Present != prNone, Sound: res.Sound, Strict: res.Strict,
